@@ -8,10 +8,12 @@ import (
 )
 
 // Val is a symbolic Go value. Scalars carry T; composites carry Fs:
-//   slice      -> Fs = [arr, off, len, cap]           (except []byte, a Seq scalar)
-//   interface  -> Fs = [tag, val]
-//   struct     -> Fs = one Val per field
-//   tuple      -> Fs = one Val per component
+//
+//	slice      -> Fs = [arr, off, len, cap]           (except []byte, a Seq scalar)
+//	interface  -> Fs = [tag, val]
+//	struct     -> Fs = one Val per field
+//	tuple      -> Fs = one Val per component
+//
 // Address-valued SSA registers carry P (a place) and no term.
 type Val struct {
 	T   *Term
@@ -55,9 +57,9 @@ type kind int
 const (
 	kInt kind = iota
 	kBool
-	kSeq    // string, []byte, [N]byte
-	kRef    // pointer, map, chan, func, unsafe pointer
-	kSlice  // non-byte slices
+	kSeq   // string, []byte, [N]byte
+	kRef   // pointer, map, chan, func, unsafe pointer
+	kSlice // non-byte slices
 	kIface
 	kStruct
 	kTuple
